@@ -14,9 +14,11 @@ import (
 // C18 — static route lookup: fixed precedence and a stable answer (DESIGN.md §4 C18).
 
 var c18Patterns = []string{"a.example.com", "example.com", "*.example.com", "a.example.*", "*", "a*m", "default",
-	"aXexample.com", "*.org", "b.example.org", "a.*.com", "*example.com", "x.o*g"}
+	"aXexample.com", "*.org", "b.example.org", "a.*.com", "*example.com", "x.o*g", "a*a"}
 var c18Hosts = []string{"a.example.com", "b.example.com", "example.com", "aXexample.com", "a.example.org", "b.example.org",
-	"x.org", "am", "a.b.com", "default", "a.example.comX", "zzz", "Xa.example.com", "a-example.com", "x.org.org", "a.example.com.example.com"}
+	"x.org", "am", "a.b.com", "default", "a.example.comX", "zzz", "Xa.example.com", "a-example.com", "x.org.org", "a.example.com.example.com",
+	// hosts in which the literal pieces on both sides of an inner '*' would have to overlap
+	"a.com", "a", "x.og", "aa"}
 
 // refWild: '*' stands for any character sequence, every other character for itself.
 func refWild(pat, s string) bool {
@@ -319,20 +321,66 @@ func c18Run(c *Ctx) {
 // c18EndToEnd: the same lookup through a running proxy: a request whose To host is h must leave
 // towards the next hop of the expected entry (tables of up to 2 entries, canonical map order).
 func c18EndToEnd(c *Ctx) {
+	c18EndToEndMode(c, false)
+	c18EndToEndMode(c, true)
+}
+
+// grouped: all patterns of the table except `default` are the destinations of ONE route entry (in
+// table order and in reverse order), `default` is an entry of its own
+func c18EndToEndMode(c *Ctx, grouped bool) {
 	tables := c18Tables(2)
+	if grouped {
+		tables = c18Tables(3)
+	}
 	var idx int64
-	for _, t := range tables {
+	for _, t0 := range tables {
 		idx++
 		if !c.Mine(idx) || c.Expired() {
 			continue
 		}
+		t := t0
+		if grouped {
+			if len(t0) < 2 {
+				continue
+			}
+			if idx%2 == 1 {
+				t = nil
+				for i := len(t0) - 1; i >= 0; i-- {
+					t = append(t, t0[i])
+				}
+			}
+		}
+		hopOf := func(i int) string { return fmt.Sprintf("127.0.1.%d:%d", i+1, 6000+i) }
 		var y strings.Builder
 		y.WriteString("proxies:\n- name: svc.example.com\n  listens:\n  - address: 127.0.0.1\n    udp-port: 5060\n    backends:\n    - udp://127.0.0.1:7990\n")
 		if len(t) > 0 {
 			y.WriteString("  route:\n")
 		}
-		for i, p := range t {
-			fmt.Fprintf(&y, "  - dests: [\"%s\"]\n    protocol: udp\n    nexthop: 127.0.1.%d:%d\n", p, i+1, 6000+i)
+		if grouped {
+			var ds []string
+			for _, p := range t {
+				if p != "default" {
+					ds = append(ds, "\""+p+"\"")
+				}
+			}
+			if len(ds) > 0 {
+				fmt.Fprintf(&y, "  - dests: [%s]\n    protocol: udp\n    nexthop: 127.0.1.1:6000\n", strings.Join(ds, ", "))
+			}
+			for _, p := range t {
+				if p == "default" {
+					y.WriteString("  - dests: [\"default\"]\n    protocol: udp\n    nexthop: 127.0.1.2:6001\n")
+				}
+			}
+			hopOf = func(i int) string {
+				if t[i] == "default" {
+					return "127.0.1.2:6001"
+				}
+				return "127.0.1.1:6000"
+			}
+		} else {
+			for i, p := range t {
+				fmt.Fprintf(&y, "  - dests: [\"%s\"]\n    protocol: udp\n    nexthop: 127.0.1.%d:%d\n", p, i+1, 6000+i)
+			}
 		}
 		s := StartSim(y.String(), SimOpts{})
 		ua := s.UDPPeer("127.0.0.9:5060")
@@ -357,7 +405,7 @@ func c18EndToEnd(c *Ctx) {
 			case len(out) == 1:
 				got = out[0].To
 				for _, i := range want {
-					if out[0].To == fmt.Sprintf("127.0.1.%d:%d", i+1, 6000+i) {
+					if out[0].To == hopOf(i) {
 						ok = true
 					}
 				}
@@ -371,7 +419,11 @@ func c18EndToEnd(c *Ctx) {
 				ok, got = false, v
 			}
 			if !ok {
-				c.Violate("e2e|"+strings.Join(t, ","), "e2e-precedence", fmt.Sprintf("table %v To host %q: request left towards %s", t, h, got), c18Case{t, h, "e2e"})
+				mode := "e2e"
+				if grouped {
+					mode = "e2e-grouped"
+				}
+				c.Violate(mode+"|"+strings.Join(t, ","), "e2e-precedence", fmt.Sprintf("table %v (%s) To host %q: request left towards %s", t, map[bool]string{true: "all patterns but default are destinations of one route entry", false: "one route entry per pattern"}[grouped], h, got), c18Case{t, h, mode})
 			}
 		}
 		s.Close()
@@ -380,7 +432,7 @@ func c18EndToEnd(c *Ctx) {
 
 func init() {
 	addCheck(&Check{ID: "C18", Level: "exploration",
-		Rule:   "all route tables of <=4 (thorough <=5) entries over a 13-pattern universe (incl. equal-length overlapping wildcards) x 16 hosts (incl. hosts in which a pattern's tail occurs twice), each lookup executed under every map iteration order (all permutations, explorer choice); non-trivial = at least one entry matches; plus, per table, all hosts looked up forwards and backwards on ONE table instance (the answer must not depend on earlier lookups; for tables of <=2 entries also with 700 - thorough 6000 - further distinct hosts looked up in between), the port rule table and end-to-end lookups by To host",
+		Rule:   "all route tables of <=4 (thorough <=5) entries over a 14-pattern universe (incl. equal-length overlapping wildcards and inner wildcards) x 20 hosts (incl. hosts in which a pattern's tail occurs twice and hosts in which the literal pieces around an inner wildcard would have to overlap), each lookup executed under every map iteration order (all permutations, explorer choice); non-trivial = at least one entry matches; plus, per table, all hosts looked up forwards and backwards on ONE table instance (the answer must not depend on earlier lookups; for tables of <=2 entries also with 700 - thorough 6000 - further distinct hosts looked up in between), the port rule table and end-to-end lookups by To host through a proxy configured from YAML, with one route entry per pattern and with all patterns of a table as the destinations of ONE entry (both orders)",
 		Assume: []string{"Go's regexp package is trusted for nothing: the reference matcher is an independent recursive wildcard matcher"},
 		Run:    c18Run,
 		Replay: func(c *Ctx, raw json.RawMessage) string {
@@ -395,6 +447,17 @@ func init() {
 				fmt.Sscanf(cs.Host, "%d", &vol)
 				cl, _ := c18SequenceVol(cs.Table, vol)
 				return cl
+			}
+			if cs.Mode == "e2e" || cs.Mode == "e2e-grouped" {
+				// re-run the end-to-end pass and look for this table
+				cc := &Ctx{ID: "C18x", Tier: c.Tier, Res: newResult(), vmap: map[string]*Violation{}, Deadline: c.Deadline, NWorkers: 1}
+				c18EndToEndMode(cc, cs.Mode == "e2e-grouped")
+				for _, v := range cc.Res.Violations {
+					if v.Sig == cs.Mode+"|"+strings.Join(cs.Table, ",") {
+						return v.Clause
+					}
+				}
+				return ""
 			}
 			if cs.Mode != "direct" {
 				return ""
